@@ -176,6 +176,55 @@ def run(ctx):
                     if not ok:
                         r3.violate("C03|R3|%s" % n, "%s selects 206 Partial Content on a path that has not established that the request carries a Range header" % n, s["span"]["file"], s["span"]["line"], n)
 
+    # R8 the request's Range header is what the range computation receives
+    r6 = chk.rule("R8-range-header-reaches-the-computation", "the header argument of every call of the range computation (Range::get_content_range_list) in request-reachable code is, where the request carries a Range header, that header: the argument has a definition taken from the request's Range lookup under the lookup's Some edge, and the call is reachable from it", floor=4)
+    from .parse_common import deep_strings
+    for n in sorted(G.reachable(R.connection_roots())):
+        fn0 = F.fns.get(n)
+        if fn0 is None or fn0.crate != "rws" or fn0.kind == "Promoted":
+            continue
+        if not any((callee_name(t) or "") == "range::Range::get_content_range_list" for _, t in fn0.calls()):
+            continue
+        fn = ctx.inl(fn0)
+        d_, c_ = du_of(fn), cfg_of(fn)
+        k = 0
+        for bid, t in fn.calls():
+            if (callee_name(t) or "") != "range::Range::get_content_range_list" or len(t["args"]) < 2 or c_.blocks[bid].get("cleanup"):
+                continue
+            k += 1
+            a = t["args"][1]
+            ok, why = False, "the header argument is not a local"
+            if a.get("k") in ("copy", "move"):
+                root = d_.canon(place_key(a))[0]
+                cands = [root] + ([a["l"]] if a["l"] != root else [])
+                # `&*range_header`: follow the reborrows to the local that holds the reference
+                v0 = d_.val_operand(a)
+                for _ in range(6):
+                    if v0[0] == "ref" and all(e == "*" for e in v0[1][1]):
+                        cands.append(v0[1][0])
+                        if len(d_.defs.get(v0[1][0], [])) == 1:
+                            v0 = d_.val_place((v0[1][0], ()))
+                            continue
+                    break
+                why = "no definition of the header argument comes from the request's Range lookup"
+                for l in cands:
+                    for d in d_.defs.get(l, []):
+                        v = d_.val_rvalue(d[3], 0, d[1]) if d[0] == "assign" else d_.val_call(d[3], 0, d[1])
+                        strs = set(deep_strings(d_, v))
+                        # the lookup may sit in a closure / private helper that yields the header (`let get_range_header = || ..`)
+                        for cn in [x for x in list(strs) if x in F.fns and F.fns[x].crate == "rws" and (F.fns[x].kind == "Closure" or (F.fns[x].vis or "").startswith("Restricted"))] + \
+                                  [x for x in (d[3].get("fn_items", []) if d[0] == "call" else []) if x in F.fns and F.fns[x].kind == "Closure"]:
+                            cdu = du_of(F.fns[cn])
+                            strs |= set(deep_strings(cdu, cdu.val_place((0, ()))))
+                        if "Range" in strs and any(x.endswith("::get_header") for x in strs):
+                            if bid == d[1] or bid in c_.reachable_from(d[1]):
+                                ok, why = True, ""
+                            else:
+                                why = "the definition taken from the Range lookup cannot reach the call"
+            r6.instance({"fn": n, "call_line": t["span"]["line"], "argument_from_the_request_range_header": ok}, ok)
+            if not ok:
+                r6.violate("C03|R8|%s|%d" % (n, k), "%s calls the range computation (line %d) with a header that is never the request's Range header: %s - the requested range is ignored" % (n, t["span"]["line"], why), t["span"]["file"], t["span"]["line"], n)
+
     # R4 labelling consistency in the range-header parser
     r4 = chk.rule("R4-label-matches-read", "in the range-header parser the body of every ContentRange comes from read_file_partially(path, R.start, R.end) of the same Range R that is stored as its label, and size derives from the file-length parameter", floor=3)
     hdu = du_of(hp)
